@@ -77,8 +77,8 @@ func c17Compare(a, b *RMsg, pushedVia bool) string {
 }
 
 func TestC17(t *testing.T) {
-	V.Rule("lab, metamorphic: generated requests (backend / Route / static-route paths, rich Via, Route and Record-Route lists, extension headers incl. those with compact forms) and responses, plus short dialog histories (INVITE -> response with both tags from the backend -> in-dialog follow-up), each executed twice: as generated and as a restyled twin in which every header name is independently respelled (canonical, compact v f t i l m c e k s o r u a b, upper, lower, random case) and every run of adjacent Via/Route/Record-Route lines is re-laid-out (joined, split, partially joined). Relation: same destination (same endpoint; any backend of the same listen entry), same decoded Via/Route/Record-Route stacks (fresh branch abstracted), same ordered remaining headers up to the harness's own name table, same body, exactly one Content-Length in each, same pinning decision. non-trivial = the twins differ in the spelling of a header the proxy looks up or in list layout; distinct by the pair")
-	V.Require("pair:request", "pair:response", "pair:dialog", "compact Content-Length", "compact Call-ID", "compact Via", "list layout differs", "compact From/To")
+	V.Rule("lab, metamorphic: generated requests (backend / Route / static-route paths, rich Via, Route and Record-Route lists, extension headers incl. those with compact forms) and responses, plus short dialog histories (INVITE -> response with both tags from the backend -> in-dialog follow-up), each executed twice: as generated and as a restyled twin in which every header name is independently respelled (canonical, compact v f t i l m c e k s o r u a b, upper, lower, random case) and every run of adjacent Via/Route/Record-Route lines is re-laid-out (joined, split, partially joined). Relation: same destination (same endpoint; any backend of the same listen entry), same decoded Via/Route/Record-Route stacks (fresh branch abstracted), same ordered remaining headers up to the harness's own name table, same body, exactly one Content-Length in each, same pinning decision; plus twin learning histories on two identical fresh services (an unroutable request teaches its Via hosts, a later request routed to one of them must be handled the same whether the teaching request was canonical or restyled). non-trivial = the twins differ in the spelling of a header the proxy looks up or in list layout; distinct by the pair")
+	V.Require("pair:learning history", "pair:request", "pair:response", "pair:dialog", "compact Content-Length", "compact Call-ID", "compact Via", "list layout differs", "compact From/To")
 	svc, err := newStdSvc(stdVariant{Pool: 4, MustRR: [3]string{"", "true", ""}})
 	if err != nil {
 		V.HarnessError(t, "cannot start lab instance: %v", err)
@@ -311,6 +311,94 @@ func TestC17(t *testing.T) {
 		V.Case(map[string]any{"canonical": namesA, "respelled": namesB})
 		if stuckA != stuckB {
 			failf(rt, "pinning decision depends on spelling: with canonical names the in-dialog follow-up reached the answering backend: %v; with the respelled twin: %v\n canonical: %s\n respelled: %s", stuckA, stuckB, namesA, namesB)
+		}
+	})
+
+	// learning histories: what an earlier request teaches the proxy must not
+	// depend on how that request was spelled or laid out. Twin histories run on
+	// two identical fresh services; every case uses a host no service has seen.
+	svcA, err := newStdSvc(stdVariant{MustRR: [3]string{"true", "", ""}})
+	if err != nil {
+		V.HarnessError(t, "cannot start lab instance: %v", err)
+	}
+	svcB, err := newStdSvc(stdVariant{MustRR: [3]string{"true", "", ""}})
+	if err != nil {
+		V.HarnessError(t, "cannot start lab instance: %v", err)
+	}
+	fresh := 100
+	rcheck(t, "learning-histories", V.N(50, 140), func(rt *rapid.T) {
+		if fresh > 248 {
+			rt.Skip("no unused address left in this process")
+		}
+		d := fresh
+		fresh++
+		entry := rapid.IntRange(0, 1).Draw(rt, "entry")
+		ua := rapid.IntRange(0, 3).Draw(rt, "ua")
+		nbelow := rapid.IntRange(1, 3).Draw(rt, "hops below the sender")
+		which := rapid.IntRange(1, nbelow).Draw(rt, "which hop is routed to later")
+		run := func(s *stdSvc, restyled bool, label string) (int, string) {
+			l := s.in.cfg.Listens[entry]
+			hop := s.ip(d)
+			ep, err := s.in.hub.udpEP("fresh-hop", hop, 5070)
+			if err != nil {
+				V.HarnessError(rt, "bind: %v", err)
+			}
+			uaEP := s.uas[ua]
+			send := func(b []byte) error { return uaEP.sendUDP(l.Addr, l.UDPPort, b) }
+			// message 1: teaches the Via hosts (it is itself not routable)
+			p := msgParts{IsReq: true, Version: "SIP/2.0", Method: "OPTIONS", CSeqMethod: "OPTIONS", CSeqN: 1}
+			p.RURI = AURI{Scheme: "sip", User: "nobody", Host: "unrouted.invalid"}
+			p.From = ANameAddr{URI: AURI{Scheme: "sip", User: "a", Host: "a.example"}, Params: []AParam{{K: "tag", V: "1", HasV: true}}}
+			p.To = ANameAddr{URI: AURI{Scheme: "sip", User: "b", Host: "nomatch.example"}}
+			p.CallID = s.nextID("c17l-")
+			p.Vias = []AVia{{Proto: "SIP", Ver: "2.0", Transport: "UDP", Host: uaEP.ip, Port: 5060, Params: []AParam{{K: "branch", V: "z9hG4bK" + s.nextID("l"), HasV: true}}}}
+			for i := 1; i <= nbelow; i++ {
+				h := fmt.Sprintf("below%d.example", i)
+				if i == which {
+					h = hop
+				}
+				p.Vias = append(p.Vias, AVia{Proto: "SIP", Ver: "2.0", Transport: "UDP", Host: h, Port: 5070, Params: []AParam{{K: "branch", V: "z9hG4bK" + s.nextID("l"), HasV: true}}})
+			}
+			m1 := assemble(rt, label+".m1", p)
+			for i := range m1.Hdrs { // canonical first
+				if sp, ok := hSpellings[m1.Hdrs[i].Kind]; ok {
+					m1.Hdrs[i].Name = sp[0]
+				}
+			}
+			if restyled {
+				m1 = restyle(rt, label+".restyle", m1)
+			}
+			s.in.expect(m1.Bytes())
+			send(m1.Bytes())
+			if rs, err := s.in.settle(send, 0); err != nil {
+				failf(rt, "%v", err)
+			} else if len(labMessages(rs)) != 0 {
+				failf(rt, "the unroutable teaching request was relayed:\n%s", labDescribe(rs))
+			}
+			// message 2: routed to the taught host
+			id := s.nextID("c17l2-")
+			m2 := []byte(fmt.Sprintf("OPTIONS sip:x@%s:5070 SIP/2.0\r\nVia: SIP/2.0/UDP %s:5060;branch=z9hG4bK%s\r\nRoute: <sip:%s:5070;lr>\r\nFrom: <sip:a@a.example>;tag=1\r\nTo: <sip:b@nomatch.example>\r\nCall-ID: %s\r\nCSeq: 1 OPTIONS\r\nContent-Length: 0\r\n\r\n", hop, uaEP.ip, id, hop, id))
+			s.in.expect(m2)
+			send(m2)
+			rs, err := s.in.settle(send, 1)
+			if _, lost := err.(labLost); lost {
+				failf(rt, "%v", err)
+			} else if err != nil {
+				V.HarnessError(rt, "%v", err)
+			}
+			got := labMessages(rs)
+			if len(got) != 1 || got[0].ep != ep {
+				failf(rt, "the request routed to %s:5070 must arrive there; receptions:\n%s", hop, labDescribe(got))
+			}
+			return len(got[0].msg.Entries(hVia))*10 + len(got[0].msg.Entries(hRR)), c17Spellings(m1)
+		}
+		a, namesA := run(svcA, false, "plain")
+		b, namesB := run(svcB, true, "twin")
+		V.Class("pair:learning history")
+		V.NonTrivial(namesA + "|" + namesB + "|" + fmt.Sprint(d))
+		V.Case(map[string]any{"teaching_request_names": namesA, "twin_names": namesB, "via_and_record_route_counts": []int{a, b}})
+		if a != b {
+			failf(rt, "after a teaching request with header lines [%s] the later request left the proxy with %d Via / %d Record-Route entries, after its restyled twin [%s] with %d / %d: what the proxy learns depends on spelling or layout", namesA, a/10, a%10, namesB, b/10, b%10)
 		}
 	})
 }
